@@ -177,7 +177,20 @@ def extract():
 
     # guesser loader
     gi = src("lib_guesser/omen/input_file_io.py")
-    c, _, _ = _shape(_func(gi, "_load_length"))
+    # parameter names are free (located by POSITION: base_directory, filename, grammar, name, min_size); the
+    # function as a whole is translated and proved equal to its model by harness/translate_loader2.py (T19)
+    import copy
+    ll = copy.deepcopy(_func(gi, "_load_length"))
+    canon = ["base_directory", "filename", "grammar", "name", "min_size"]
+    if len(ll.args.args) != len(canon):
+        raise ExtractError("_load_length: %d parameters, modelled %d" % (len(ll.args.args), len(canon)))
+    ren = {a.arg: c0 for a, c0 in zip(ll.args.args, canon)}
+    if len(set(ren)) != len(canon) or (set(canon) - set(ren)) & {n.id for n in ast.walk(ll) if isinstance(n, ast.Name)}:
+        raise ExtractError("_load_length: parameter names clash with the canonical ones")
+    for n in ast.walk(ll):
+        if isinstance(n, ast.Name) and n.id in ren:
+            n.id = ren[n.id]
+    c, _, _ = _shape(ll)
     _expect("_load_length comparisons", c, ["cur_length >= min_size", "level < 0", "level > grammar['max_level']"])
     ml = None
     for n in ast.walk(_func(gi, "_load_config")):
